@@ -585,7 +585,7 @@ func (c *Ctx) adjustMethods() []*ssa.Function {
 func ruleAdjustPure(c *Ctx, rule string) {
 	r := c.R
 	ms := c.adjustMethods()
-	r.Floor(rule, "methods implementing SearchInstruction.adjust", len(ms), 16)
+	r.Floor(rule, "methods implementing SearchInstruction.adjust", len(ms), 10)
 	for _, fn := range ms {
 		ob := r.Ob(rule, "pure "+fnName(fn), c.pos(fn.Pos()))
 		var viol []string
